@@ -13,6 +13,8 @@ open ShellOp ShellOp.Util ShellOp.Json ShellOp.Trigger ShellOp.Drv.JsonParse
 
 structure St where
   cfg : Cfg := {}
+  exec : Option (List WatchEvent) := none    -- `executeHookOnEvent` as written in the hook config
+  watch : Option (List WatchEvent) := none   -- `watchEvent` (deprecated alias) as written
   ready : Bool := false
   cache : Cache String := []
   known : Spec.Known := []
@@ -22,7 +24,7 @@ structure St where
   specFr : Option J := none
   specFrDefined : Bool := true   -- false: the filter fails on the delivered object, the spec is silent
 
-def cks (j : J) : String := j.print
+def cks : J → String := textCks id
 
 def intern (tab : List String) (s : String) : List String × Nat :=
   match tab.idxOf? s with
@@ -45,8 +47,17 @@ def showCache (tab : List String) (c : Cache String) : List String × String :=
     (t, acc.2 ++ [s])) (tab, [])
   (tab, if parts.isEmpty then "-" else String.intercalate "," parts)
 
-def types? (s : String) : Option (List WatchEvent) :=
-  if s == "default" then some defaultTypes else (strList s).mapM WatchEvent.ofString?
+/-- a key of the binding: `~` = absent, `-` = the empty list, otherwise the list -/
+def optTypes? (s : String) : Option (Option (List WatchEvent)) :=
+  if s == "~" then some none else ((strList s).mapM WatchEvent.ofString?).map some
+
+def showTypes (l : List WatchEvent) : String :=
+  if l.isEmpty then "-" else String.intercalate "," (l.map WatchEvent.toString)
+
+/-- The configuration the property speaks about: the event types *listed* by the binding as
+written (`Spec.listed`), not what the loader made of it. -/
+def specCfg (st : St) : Cfg :=
+  { st.cfg with types := [WatchEvent.added, .modified, .deleted].filter (Spec.listed st.exec st.watch) }
 
 def parseKV (t : String) : Option (Nat × J) :=
   match t.splitOn "=" with
@@ -65,10 +76,24 @@ def specSnap (st : St) : List String :=
 def step (st : St) (toks : List String) : St × String :=
   match toks with
   | "cfg" :: rest =>
-    match (kv? "types" rest).bind types?, kv? "keep" rest, (kv? "ast" rest).bind optFilter? with
-    | some ts, some k, some f =>
-      ({ cfg := { types := ts, filter := f, keep := k == "1" }, ready := true }, "ok")
-    | _, _, _ => (st, "bad-op")
+    match (kv? "exec" rest).bind optTypes?, (kv? "watch" rest).bind optTypes?, kv? "keep" rest,
+          (kv? "ast" rest).bind optFilter? with
+    | some ex, some wa, some k, some f =>
+      ({ cfg := { types := configuredTypes ex wa, filter := f, keep := k == "1" },
+         exec := ex, watch := wa, ready := true }, "ok")
+    | _, _, _, _ => (st, "bad-op")
+  | "types" :: [] =>
+    -- Monitor.EventTypes of the loaded binding (model of ConvertAndCheck + WithEventTypes)
+    if !st.ready then (st, "bad-op") else (st, showTypes st.cfg.types)
+  | "oracle" :: "types" :: [got] =>
+    -- the property: an event type is in the monitor's list iff the binding lists it
+    match (strList got).mapM WatchEvent.ofString? with
+    | none => (st, "bad-op")
+    | some g =>
+      let bad := [WatchEvent.added, .modified, .deleted].filter
+        (fun ev => decide (ev ∈ g) != Spec.listed st.exec st.watch ev)
+      if bad.isEmpty then (st, "true")
+      else (st, s!"false want-listed={showTypes (specCfg st).types}")
   | "defaults" :: [] =>
     (st, String.intercalate "," (defaultTypes.map WatchEvent.toString))
   | "jq" :: [o] =>
@@ -93,7 +118,7 @@ def step (st : St) (toks : List String) : St × String :=
     match WatchEvent.ofString? t, id.toNat?, json? o with
     | some ev, some id, some obj =>
       let r := handle st.cfg cks st.cache ev id obj
-      let sp := Spec.step st.cfg st.known ev id obj
+      let sp := Spec.step (specCfg st) st.known ev id obj
       let (tab, fired) := match r.2 with
         | none => (st.ckTab, "-")
         | some e =>
